@@ -36,7 +36,7 @@ check("C16", "A", "exploration",
 check("C18", "A", "exploration",
       "complete enumeration of the domain",
       "All 65 536 16-bit words in both tiers; all 2^32 i32 values in the thorough tier (a dense window plus every power-of-two neighbourhood in the quick tier).",
-      "For -32768..-1 either 'invalid' or the documented bit-pattern reading is accepted.", "DESIGN.md 3/C18")
+      "Values in -32768..-1 are treated as the signed reading of a 16-bit word (the code documents the bit-pattern reading) and must be classified like the same word given as u16.", "DESIGN.md 3/C18")
 check("C19", "A", "exploration",
       "exhaustive enumeration of token strings against a hand-written recogniser",
       "Every sequence of <= 6 (quick) / 7 (thorough) tokens over 13 tokens through all four entry points; accepted texts of <= 3/4 tokens also through a built package.",
